@@ -394,6 +394,10 @@ def bundle(cls: type) -> Bundle:
             # Special-case the upper-cased `Roles`, as it'll often be a class-def
             setattr(bundle, "roles", val)
         elif isinstance(val, Role):
+            if val.name is None:
+                # Name anonymous roles, e.g. from `h.Roles(2)`, after their attribute.
+                # Roles compare by name; left unnamed, all roles of the Bundle would compare equal.
+                val.name = key
             roles_dict[key] = val
         elif is_bundle_attr(val):
             setattr(bundle, key, val)
